@@ -132,5 +132,13 @@ META["C18"] = {
     "note": "F10 (Swap did not re-index the swapped elements, truncating iteration) was a genuine defect, repaired in generator and generated code (fix: commit). 'Each element reports exactly the kind last stored' is checked by the harness per kind (the model is kind-agnostic: a value is kind+payload).",
 }
 
+META["C19"] = {
+    "category": "proof",
+    "design_ref": "DESIGN.md section 5 / C19",
+    "technique": "Lean 4: the transport's decision logic as pure functions with iff-theorems (body only for 200; success only for 200/201/202; batch error iff some attempt failed, naming each failure once, every recipient judged) and the header set of the request handed to the signer; correspondence harness with a recording signer, real RSA httpsig signers verified on the received request, and a scripted HTTP client, comparing signer arguments, received requests and return values with the model",
+    "text": "partial: the theorems cover the bookkeeping and the request contents for all payloads, recipient lists and response scripts. 'Handed to the signer after the headers are set and not altered afterwards', 'exactly once per recipient' and signature verification are established per run on the real code's recorded calls. Freedom from data races and the interleaving of the batch goroutines are runtime behaviour no executable Lean model exhibits; the thorough tier runs concurrent batches under the Go race detector.",
+    "note": "level = partial for the race-freedom clause; the rest is proof + correspondence.",
+}
+
 _ALL = ["C%02d" % i for i in range(1, 21)]
 NOT_APPLICABLE = [{"property_id": p, "reason": PENDING} for p in _ALL if p not in META]
